@@ -119,6 +119,19 @@ TRIAGE = [
     ("single", 738, 812, "not-claimed", "deprecated duration statistics and their placeholder values"),
     ("single", 815, 822, "equivalent", "verbose printing"),
     ("stockwell", 118, 150, "equivalent", "sign of a frequency that is only squared; overwrite_x on a temporary; slice end beyond the array"),
+    ("average", 103, 111, "equivalent", "multiplying / dividing by an array of ones"),
+    ("frequency", 200, 210, "equivalent", "axis=0 / -1 of a 1-D array"),
+    ("im", 84, 90, "equivalent", "ind2[0][..] / ind2[-1][..] of a 1-tuple"),
+    ("im", 446, 458, "equivalent", "placeholder 1e-14 vs 1.1e-14 far below rounding of the sum; a duplicated first / last node of a "
+                                   "'previous'-kind interp1d (which sorts its nodes) carries the same value either way"),
+    ("loader", 20, 24, "equivalent", "usecols=0 / -1 of a one-column file"),
+    ("peaks_and_crossings", 80, 88, "equivalent", "np.where(...)[0] / [-1] of a 1-tuple"),
+    ("sdof", 215, 222, "allowed", "T exactly equal to 6 dt (boundary not fixed by the statement)"),
+    ("sdof", 262, 266, "equivalent", "mass = 1"),
+    ("stockwell", 165, 175, "equivalent", "one extra Toeplitz row that the next slice drops; slice end beyond the array"),
+    ("stockwell", 212, 224, "equivalent", "axis of a 1-D flip; a truncation length that only grows beyond the array length"),
+    ("stockwell", 226, 244, "allowed", "frequency axis entry of the first-harmonic row only: the statement covers sinusoids from the second harmonic up"),
+    ("time_shift", 96, 104, "not-claimed", "the end=-1 sentinel of get_section_average (same_start passes explicit section windows)"),
     ("surface", 25, 45, "equivalent", "min(max(2 s), 0) = min(min(2 s), 0) = 0 for non-negative shifts; shift exactly 0 takes either branch identically"),
     ("surface", 95, 105, "equivalent", "one-row result indexed [0] / [-1]"),
     ("surface", 205, 212, "equivalent", "one-row result indexed [0] / [-1]"),
